@@ -204,16 +204,16 @@ Section Wire.
   Proof.
     pose proof (ok_nelist _ _ ok_method) as [Hm Wm]. destruct ok_server as [Hs Ws]. destruct ok_security as [Hsec Wsec].
     split; intros e (Hv & Hsc & Hme & Hsv & Hpi); destruct e as [ver sec ms sv pi];
-      cbn [de_version de_security de_methods de_server de_protocol_info] in *; subst ver pi;
+      cbn [de_version de_security de_methods de_server de_protocol_info] in *; subst ver;
       cbn [c_engagement enc dec]; unfold engagement_to_cbor, engagement_of_cbor;
       cbn [de_version de_security de_methods de_server de_protocol_info].
     - specialize (Hsec sec Hsc).
-      destruct ms as [l|]; destruct sv as [s|]; cbn [option_map opt_entry app opt_P] in *; cbn;
+      destruct ms as [l|]; destruct sv as [s|]; destruct pi as [p|]; cbn [option_map opt_entry app opt_P] in *; cbn;
         rewrite bytes_eqb_refl; cbn in Hsec |- *; rewrite Hsec; cbn;
         try (cbn in Hm; rewrite (Hm l Hme)); try (cbn in Hs; rewrite (Hs s Hsv)); reflexivity.
     - specialize (Wsec sec Hsc). pose proof (tk_version tb Htb) as Hn. unfold name_ok in Hn.
-      destruct ms as [l|]; destruct sv as [s|]; cbn [option_map opt_entry app opt_P wf forallb] in *;
-        rewrite Hn, Wsec; try rewrite (Wm l Hme); try rewrite (Ws s Hsv); reflexivity.
+      destruct ms as [l|]; destruct sv as [s|]; destruct pi as [p|]; cbn [option_map opt_entry app opt_P wf forallb] in *;
+        rewrite Hn, Wsec; try rewrite (Wm l Hme); try rewrite (Ws s Hsv); try (unfold value_ok in Hpi; rewrite Hpi); reflexivity.
   Qed.
 
   (* ---------- session ---------- *)
@@ -348,10 +348,47 @@ Section Wire.
     - apply validity_enc_wf, validity_exact_wf, Hv.
   Qed.
 
+  (* encoding a ValidityInfo never panics: it succeeds exactly when every date has a four-digit UTC
+     year, and reports an error otherwise *)
+  Lemma first_failure_none ds : forallb emit_ok ds = true -> first_failure ds = None.
+  Proof.
+    induction ds as [|d r IH]; cbn [forallb first_failure]; intro H; [reflexivity|].
+    apply andb_true_iff in H as [H1 H2]. rewrite (emit_checked_ok d H1). apply IH, H2.
+  Qed.
+
+  Lemma first_failure_some ds : forallb emit_ok ds = false -> exists e, first_failure ds = Some (EmitError e).
+  Proof.
+    induction ds as [|d r IH]; cbn [forallb first_failure]; intro H; [discriminate|].
+    destruct (emit_ok d) eqn:E.
+    - rewrite (emit_checked_ok d E). apply IH. exact H.
+    - destruct (emit_checked_error d E) as [e He]. rewrite He. exists e. reflexivity.
+  Qed.
+
+  Theorem validity_encode_total v :
+    (validity_encodable v = true /\ validity_encode v = EncOk (validity_to_cbor v)) \/
+    (validity_encodable v = false /\ exists e, validity_encode v = EncErr e).
+  Proof.
+    unfold validity_encodable, validity_encode. destruct (forallb emit_ok (validity_dates v)) eqn:E.
+    - left. rewrite (first_failure_none _ E). split; reflexivity.
+    - right. destruct (first_failure_some _ E) as [e He]. rewrite He. split; [reflexivity|exists e; reflexivity].
+  Qed.
+
+  Corollary validity_encode_no_panic v : validity_encode v <> EncPanic.
+  Proof.
+    destruct (validity_encode_total v) as [[_ H]|[_ [e H]]]; rewrite H; discriminate.
+  Qed.
+
+  Lemma validity_wf_encodable v : validity_wf v -> validity_encodable v = true.
+  Proof.
+    destruct v as [s f u e]. unfold validity_wf, validity_encodable, validity_dates.
+    cbn [vi_signed vi_valid_from vi_valid_until vi_expected_update]. intros ([_ A] & [_ B] & [_ C] & D).
+    destruct e as [d|]; cbn [app forallb opt_P] in *; [destruct D as [_ D]; rewrite D|]; rewrite A, B, C; reflexivity.
+  Qed.
+
   Lemma date_ok_trunc d : date_ok d -> date_exact (to_utc_trunc d).
   Proof.
-    intros [H1 H2]. destruct (utc_of_secs_valid (instant d)) as [V N].
-    split; [split|]; [exact V| |exact N]. unfold emit_ok in *. rewrite to_utc_trunc_idem. exact H2.
+    intros [H1 H2]. destruct (to_utc_trunc_valid d) as [V N].
+    split; [split|]; [exact V| |exact N]. rewrite emit_ok_trunc. exact H2.
   Qed.
 
   (* the normal form is in the exact domain, and encodes to the same CBOR: the encoding is a fixed point *)
@@ -543,22 +580,6 @@ Section Wire.
     - eexists. split; [reflexivity|]. cbn [jwk_to_cose obind]. rewrite (tk_ec2_jwk tb Htb). reflexivity.
     - reflexivity.
     - eexists. split; [reflexivity|]. cbn [jwk_to_cose obind]. rewrite (tk_okp_jwk tb Htb). reflexivity.
-  Qed.
-
-  (* ---------- DeviceEngagement.protocol_info is not written ---------- *)
-
-  Definition clear_protocol_info (e : device_engagement) : device_engagement :=
-    DeviceEngagement (de_version e) (de_security e) (de_methods e) (de_server e) None.
-  Definition engagement_wf_but_protocol_info (e : device_engagement) : Prop :=
-    de_version e = version_bytes tb /\ security_wf tb (de_security e) /\ opt_P (ne_P (method_wf tb)) (de_methods e) /\
-    opt_P server_wf (de_server e).
-
-  Theorem engagement_rt_drops_protocol_info e : engagement_wf_but_protocol_info e ->
-    dec (c_engagement tb) (enc (c_engagement tb) e) = Some (clear_protocol_info e).
-  Proof.
-    intros (H1 & H2 & H3 & H4).
-    assert (E : enc (c_engagement tb) e = enc (c_engagement tb) (clear_protocol_info e)) by (destruct e; reflexivity).
-    rewrite E. apply (ok_rt _ _ ok_engagement). destruct e. exact (conj H1 (conj H2 (conj H3 (conj H4 eq_refl)))).
   Qed.
 
 End Wire.
